@@ -21,7 +21,8 @@ def funcDecl (j : Json) : R FuncDecl := do
     | none => pure none
     | some r => do pure (some (⟨← fldBool r "ptr", ← fldStr r "base"⟩ : Recv))
   pure { name := ← fldStr j "name", recv := recv, params := ← listOf field (← fld j "params"),
-         results := ← listOf field (← fld j "results"), doc := (fldStr j "doc").toOption.getD "" }
+         results := ← listOf field (← fld j "results"), doc := (fldStr j "doc").toOption.getD "",
+         typeParams := ((fldStr j "tparams").toOption.getD "") ≠ "" }
 
 def fnRef (j : Json) : R FnRef := do
   match (← fldStr j "k") with
